@@ -71,6 +71,7 @@ Definition enc_exn (e : exn) : sx :=
   | XPGP k => SL [enc_pgpfail k]
   | XOS e => SL [sym "OSError"; enc_errno e]
   | XBadCompressed => SL [sym "BadCompressedFile"]
+  | XCodecInternal => SL [sym "CodecInternalError"]
   | XInternal k => SL [sym "Internal"; enc_ikind k]
   | XOutOfFuel => SL [sym "OutOfFuel"]
   | XOracleMiss q => SL [sym "OracleMiss"; SL (map SS q)]
